@@ -94,6 +94,30 @@ let rec lexlt (a : n list) (b : n list) = match a, b with
   | _, [] -> false | [], _ :: _ -> true
   | x :: a', y :: b' -> let c = compare (int_of_n x) (int_of_n y) in if c < 0 then true else if c > 0 then false else lexlt a' b'
 
+
+(* library allocations (aligned new: nodes and out-of-line value blocks) reachable from a tree *)
+let tree_allocs (tr : tree) : int =
+  let rec bt_n t = match t with
+    | BLeaf l -> 1 + List.fold_left (fun a (_, s) -> match s.sl_lv with LValue v when not v.v_inline -> a + 1 | _ -> a) 0 (leaf_ranked l)
+    | BInt (_, _, _, ch) -> 1 + List.fold_left (fun a c -> a + bt_n c) 0 ch in
+  List.fold_left (fun a (_, t) -> a + bt_n t) 0 tr.t_layers
+let sys_allocs (s : sys) : int =
+  tree_allocs s.sy_outer + List.fold_left (fun a (_, t) -> a + tree_allocs t) 0 s.sy_trees
+let allocs_line (before : sys) (after : sys) (status_ok : bool) (kind : string) (retired : int) : string =
+  (* new reachable allocations + the ones that became unreachable but are only retired (not yet freed) *)
+  let d = sys_allocs after - sys_allocs before + retired in
+  match kind with
+  | "put" -> if status_ok then Printf.sprintf " aa=%d af=0" d else " aa=0 af=0"
+  | "rem" -> " aa=0 af=0"
+  | "create" -> if status_ok then Printf.sprintf " aa=%d af=0" d else " aa=1 af=1"
+  | "dropst" ->
+    (* the dropped user tree is destroyed at once; the outer entry (value, emptied nodes) is only retired *)
+    let dropped = List.fold_left (fun a (sid, t) ->
+        if List.exists (fun (sid', _) -> N.eqb sid sid') after.sy_trees then a else a + tree_allocs t) 0 before.sy_trees in
+    Printf.sprintf " aa=0 af=%d" (if status_ok then dropped else 0)
+  | "destroy" -> Printf.sprintf " aa=0 af=%d" (sys_allocs before)
+  | _ -> ""
+
 let aval_s (v : aval) len_of =
   if v.av_inline then "w" ^ word_of_bytes v.av_bytes else hex_of_bytes v.av_bytes
 
@@ -120,7 +144,9 @@ let () =
   let st = ref sys_init in
   let sp = ref spec_init in
   let cur = ref "" in
+  let prev_st = ref sys_init in
   let run o =
+    prev_st := !st;
     let (s', r) = exec !st o in st := s';
     let (p', a) = spec_exec !sp o in sp := p';
     print_endline ("S " ^ spec_line !cur a);
@@ -139,11 +165,11 @@ let () =
       | "enter" :: _ -> print_endline "enter OK"
       | "leave" :: _ -> print_endline "leave OK"
       | "destroy" :: _ ->
-        (match run ODestroy with RStatus s -> print_endline ("destroy " ^ status_s s) | _ -> print_endline "destroy STUCK")
+        (match run ODestroy with RStatus s -> print_endline ("destroy " ^ status_s s ^ allocs_line !prev_st !st true "destroy" 0) | _ -> print_endline "destroy STUCK")
       | "create" :: s :: _ ->
-        (match run (OCreate (bytes_of_hex s)) with RStatus s -> print_endline ("create " ^ status_s s) | _ -> print_endline "create STUCK")
+        (match run (OCreate (bytes_of_hex s)) with RStatus s -> print_endline ("create " ^ status_s s ^ allocs_line !prev_st !st (s = St_OK) "create" 0) | _ -> print_endline "create STUCK")
       | "dropst" :: s :: _ ->
-        (match run (ODropStorage (bytes_of_hex s)) with RStatus s -> print_endline ("dropst " ^ status_s s) | _ -> print_endline "dropst STUCK")
+        (match run (ODropStorage (bytes_of_hex s)) with RStatus s -> print_endline ("dropst " ^ status_s s ^ allocs_line !prev_st !st (s = St_OK) "dropst" 0) | _ -> print_endline "dropst STUCK")
       | "find" :: s :: _ ->
         (match run (OFind (bytes_of_hex s)) with RStatus s -> print_endline ("find " ^ status_s s) | _ -> print_endline "find STUCK")
       | "list" :: _ ->
@@ -159,11 +185,11 @@ let () =
          | RPut po ->
            (match po.po_status, po.po_info with
             | St_OK, Some info ->
-              printf_m "put OK mod=%s cre=%s cvp=1" (id_s info.pi_modified)
-                (match info.pi_created with Some c -> id_s c | None -> "-")
-            | St_OK, None -> print_endline "put OK mod=- cre=- cvp=1"
-            | s, _ -> print_endline ("put " ^ status_s s))
-         | RStatus s -> print_endline ("put " ^ status_s s)
+              printf_m "put OK mod=%s cre=%s cvp=1%s" (id_s info.pi_modified)
+                (match info.pi_created with Some c -> id_s c | None -> "-") (allocs_line !prev_st !st true "put" (List.length po.po_retired))
+            | St_OK, None -> print_endline ("put OK mod=- cre=- cvp=1" ^ allocs_line !prev_st !st true "put" (List.length po.po_retired))
+            | s, _ -> print_endline ("put " ^ status_s s ^ " aa=0 af=0"))
+         | RStatus s -> print_endline ("put " ^ status_s s ^ " aa=0 af=0")
          | _ -> print_endline "put STUCK")
       | "get" :: s :: k :: _ ->
         (match run (OGet (bytes_of_hex s, bytes_of_hex k)) with
@@ -178,8 +204,8 @@ let () =
          | _ -> print_endline "get STUCK")
       | "rem" :: s :: k :: _ ->
         (match run (ORemove (bytes_of_hex s, bytes_of_hex k)) with
-         | RRemove r -> print_endline ("rem " ^ status_s r.ro_status)
-         | RStatus s -> print_endline ("rem " ^ status_s s)
+         | RRemove r -> print_endline ("rem " ^ status_s r.ro_status ^ " aa=0 af=0")
+         | RStatus s -> print_endline ("rem " ^ status_s s ^ " aa=0 af=0")
          | _ -> print_endline "rem STUCK")
       | "scan" :: s :: l :: le :: r :: re :: mx :: rtl :: _ ->
         let (lk, ln) = key_tok l and (rk, rn) = key_tok r in
@@ -250,8 +276,8 @@ let () =
            let changed = List.length (List.filter (fun l ->
                List.exists (fun l' -> N.eqb l'.lf_id l.lf_id && not (N.eqb l'.lf_ver l.lf_ver)) after) before) in
            let split = (match po.po_info with Some i -> i.pi_created <> None | None -> false) in
-           printf_m "putinfo %s existed=%s changed=%d split=%s ok=1" (status_s po.po_status) (b2s existed) changed (b2s split)
-         | RStatus stt -> printf_m "putinfo %s existed=0 changed=0 split=0 ok=1" (status_s stt)
+           printf_m "putinfo %s existed=%s changed=%d split=%s ok=1%s" (status_s po.po_status) (b2s existed) changed (b2s split) (allocs_line !prev_st !st true "put" (List.length po.po_retired))
+         | RStatus stt -> printf_m "putinfo %s existed=0 changed=0 split=0 ok=1 aa=0 af=0" (status_s stt)
          | _ -> print_endline "putinfo STUCK")
       | "iscan" :: s :: l :: le :: r :: re :: rtl :: _ ->
         let sname = bytes_of_hex s in
